@@ -97,6 +97,8 @@ class _SatSpec:
     def __init__(self, src_spec, names):
         self.PRELUDE = src_spec.PRELUDE
         by = {u.name: u for u in src_spec.UNITS}
+        if names == "*":
+            names = [u.name for u in src_spec.UNITS]   # every unit of the other property's spec
         missing = [n for n in names if n not in by]
         if missing:
             raise LostAnchor("satellite units not found in the source spec: %s" % missing)
